@@ -8,7 +8,7 @@
    check C09Check applies to the observations of the real crate (cb = the logged calls). *)
 From Coq Require Import List Arith Bool Permutation Sorted ZArith NArith.
 Import ListNotations.
-From Cao Require Import CardAst Table Value RefSem StdSpec StdRun C09Proofs SortOrderProofs C09Natives C09Cards.
+From Cao Require Import CardAst Table Value RefSem StdSpec StdRun C09Proofs SortOrderProofs C09Natives C09Cards C09Check.
 
 (* ========================================================================================== *)
 (* A. what the specification functions mean                                                   *)
@@ -301,3 +301,57 @@ Theorem C09_std_any :
       st_globals s' = st_globals s /\ st_log s' = st_log s.
 Proof. exact std_any_correct. Qed.
 Print Assumptions C09_std_any.
+
+(* the three corollaries "the input table is where it was" *)
+Theorem C09_std_inputs_unchanged :
+  forall P host idx cbv cb s p tb,
+    nth_error (st_heap s) p = Some tb -> wf_table tb -> pure_cb P host cbv cb ->
+    (forall args, val_in_heap (st_heap s) (cb args)) ->
+    (has_std P idx s_filter \/ has_std P idx s_map \/ has_std P idx s_any) ->
+    exists r s', runs P host (TkCallFn idx [cbv; VTable p]) s (ok [r] empty_env s') /\
+                 nth_error (st_heap s') p = Some tb.
+Proof.
+  intros P host idx cbv cb s p tb Hp Hwf Hcb Hv [H | [H | H]].
+  - destruct (std_filter_correct P host idx cbv cb s p tb H Hp Hwf Hcb Hv) as (s' & Hr & Hh & _).
+    eexists _, s'. split; [exact Hr|]. rewrite Hh, nth_error_app1; [exact Hp | apply nth_error_Some; congruence].
+  - destruct (std_map_correct P host idx cbv cb s p tb H Hp Hwf Hcb) as (s' & Hr & Hh & _).
+    eexists _, s'. split; [exact Hr|]. rewrite Hh, nth_error_app1; [exact Hp | apply nth_error_Some; congruence].
+  - destruct (std_any_correct P host idx cbv cb s p tb H Hp Hwf Hcb Hv) as (s' & Hr & Hh & _).
+    eexists _, s'. split; [exact Hr|]. rewrite Hh, nth_error_app1; [exact Hp | apply nth_error_Some; congruence].
+Qed.
+Print Assumptions C09_std_inputs_unchanged.
+
+(* ========================================================================================== *)
+(* D. the checker's orderings on trees                                                         *)
+(* ========================================================================================== *)
+(* C09Check evaluates the specification on the owned trees the host sees, with transcriptions
+   tr_bool / tr_less / tr_greater / tr_sort_lt of v_bool / < / > / sort_lt.  They are not proved
+   equal in general; this compares them on every pair of a sample of 32 values of all kinds
+   (extreme integers, signed zeros, 2^53 and 2^53+1, infinities, NaN, a denormal, strings, tables
+   of different and equal lengths, nested tables, functions). *)
+Definition sample_heap : list (otable value) :=
+  [ []; [(KInt 0, VInt 1)]; [(KInt 0, VInt 1); (KStr [97%N], VNil)]; [(KInt 0, VInt 2)];
+    [(KNil, VTable 1); (KInt 5, VReal (sf_of_bits 4609434218613702656%N))] ].
+Definition sample_values : list value :=
+  [ VNil; VInt 0; VInt 1; VInt 2; VInt (-3); VInt 9007199254740993; VInt 9007199254740992;
+    VInt 9223372036854775807; VInt (-9223372036854775808);
+    VReal (sf_of_bits 0%N); VReal (sf_of_bits 9223372036854775808%N);            (* 0.0, -0.0 *)
+    VReal (sf_of_bits 4607182418800017408%N); VReal (sf_of_bits 4611686018427387904%N);   (* 1.0 2.0 *)
+    VReal (sf_of_bits 4612811918334230528%N); VReal (sf_of_bits 13832806255468478464%N);  (* 2.5 -1.5 *)
+    VReal (sf_of_bits 4845873199050653696%N);                                    (* 2^53 *)
+    VReal (sf_of_bits 9218868437227405312%N); VReal (sf_of_bits 18442240474082181120%N);  (* inf -inf *)
+    VReal (sf_of_bits 9221120237041090560%N);                                    (* NaN *)
+    VReal (sf_of_bits 1%N); VReal (sf_of_bits 9106278446543142912%N);            (* denormal, 1e300-ish *)
+    VStr []; VStr [97%N]; VStr [98%N; 98%N]; VStr [99%N; 99%N];
+    VTable 0; VTable 1; VTable 2; VTable 3; VTable 4; VFn 0; VNative [108%N] ].
+Definition tr (v : value) : tree := to_tree 6 sample_heap v.
+Definition all_pairs (f : value -> value -> bool) : bool :=
+  forallb (fun a => forallb (f a) sample_values) sample_values.
+
+Example C09_tree_orderings_agree_on_samples :
+  all_pairs (fun a b => Bool.eqb (tr_sort_lt (tr a) (tr b)) (sort_lt sample_heap a b)) = true /\
+  all_pairs (fun a b => Bool.eqb (tr_less (tr a) (tr b)) (cmp_is sample_heap Lt a b)) = true /\
+  all_pairs (fun a b => Bool.eqb (tr_greater (tr a) (tr b)) (cmp_is sample_heap Gt a b)) = true /\
+  forallb (fun a => Bool.eqb (tr_bool (tr a)) (v_bool sample_heap a)) sample_values = true.
+Proof. vm_compute. repeat split. Qed.
+Print Assumptions C09_tree_orderings_agree_on_samples.
